@@ -236,6 +236,36 @@ PROPS.update({
     },
 })
 
+PROPS.update({
+    "C14": {
+        "level_text": "Fault enumeration over the stream environment: writer-generated motif files (7 readers; record lists of 1..300 records rotating every width {1,2,7,25}, cell-content mode incl. magnitudes {0,1,9,10,99999,u32::MAX}, metadata presence mask, all 24 column orders + wildcard layouts, writer styles, CRLF, VV header) are read through a scripted BufRead whose chunk ends are the answers of a deviation-bounded choice explorer: no cut and every single cut for every file, every pair of cuts for files <= 400 bytes (quick <= 260), restricted triples (thorough), every uniform chunk size 1..=128, 4096, 8192; the bundled corpora (JASPAR2024.pwm, prodoric.transfac, tests/*) under uniform sizes, strided single cuts and all pairs for the small files with a differential oracle.",
+        "level_note": "Trusted: the writer + record model (expected observation computed without lightmotif-io), std::io::BufRead::read_until/read_line semantics, nom's float = str::parse (read in nom 7.1.3). The full product of the per-record dimensions is covered by rotation inside multi-record files, not enumerated as a product. TRANSFAC entries are compared as correctly rounded f32; to_counts() only when every count is exact in f32. No I/O errors injected.",
+        "technique": "deviation-bounded choice exploration of fill_buf answers (chunkings with <= d cuts) + uniform chunk sizes over writer-generated files, reference = the written record list; differential oracle on bundled corpora",
+        "level": "fault_enumeration",
+        "package": "vx-io",
+        "profiles": ["rel", "chk"],
+        "wall": {"quick": 150, "thorough": 3000},
+        "rule": "Every chunking with at most d cuts (d=1 all files, d=2 files <= 400 bytes, d=3 on structure positions) and every uniform chunk size, of every file of an explicit writer menu; counts are reader executions, distinct by construction of the explorer.",
+        "assumptions": COMMON_ASSUMPTIONS + [
+            "a chunking is fully described by its set of absolute cut positions; fill_buf returns the unconsumed rest of the current chunk like std BufReader",
+            "files longer than 400 bytes see single cuts and uniform sizes only; interactions of two or more cuts there are not explored",
+        ],
+    },
+    "C15": {
+        "level_text": "Fault enumeration on reader inputs: ALL byte strings of length <= 4 (thorough <= 6) over a 12-symbol alphabet incl. the empty input; ALL sequences of <= 5 (6) lines from per-format line menus with/without final newline; for small valid files of every reader every prefix, every single-byte deletion, every position x substitution/insertion of a 19-byte alphabet (thorough: all 256 byte values), line-level and token-level structural faults (ragged rows, header without matrix, duplicated symbol line, missing final newline, numeric overflow tokens), pairs of faults at line-structure positions (thorough), the bundled test files as bases (thorough); each under chunkings {whole, 1-byte chunks, one cut at the fault}. Reader::new and every next() run under catch_unwind; the stream allows 10*(len+10) fill_buf calls (hang), len+2 records before Err/None (livelock), 20 s watchdog.",
+        "level_note": "Trusted: catch_unwind isolation, the scripted BufRead. Two further next() calls after the first error and one after end of input are probed for panics only (signature phase after-error / after-end). I/O errors of the stream are not injected.",
+        "technique": "exhaustive enumeration of short inputs and of single/double faults in valid files x chunkings, monitors: catch_unwind, fill_buf budget, record horizon, watchdog",
+        "level": "fault_enumeration",
+        "package": "vx-io",
+        "profiles": ["rel", "chk"],
+        "wall": {"quick": 150, "thorough": 3000},
+        "rule": "All strings <= 4 (6) bytes over 12 symbols, all <= 5 (6)-line sequences over per-format menus, every prefix/deletion/substitution/insertion and structural fault of small valid files, times three chunkings; non-trivial = input differs from a valid file.",
+        "assumptions": COMMON_ASSUMPTIONS + [
+            "readers have no state beyond the stream position and their line/record buffer, so single and double faults on 1-2 record files reach every parser error path reachable by local corruption",
+        ],
+    },
+})
+
 # properties not claimed (with reason); kept current as checks are added
 NOT_APPLICABLE = [
     {"property_id": p, "reason": "check not built yet in this round (planned in DESIGN.md section 2); not claimed until its harness exists"}
